@@ -11,9 +11,18 @@ from hypothesis import strategies as st
 from .gen_maps import r1
 
 
-def _reference(draw, rid, n):
+def _reference(draw, rid, n, aperiodic=False):
     base = draw(st.lists(st.integers(2500, 14000), min_size=24, max_size=40))
     gaps = [base[i % len(base)] + (i * i * 31 + 17 * i) % 1500 for i in range(n - 1)]
+    if aperiodic:
+        # the line above is the drawn pattern repeated with small modulations: a window of 20 labels then fits thousands of
+        # places almost equally well.  Here every gap comes from a 64-bit congruential sequence started at a drawn number
+        # (part of the case, so replay and shrinking are unaffected)
+        x = draw(st.integers(1, 2 ** 32))
+        gaps = []
+        for _ in range(n - 1):
+            x = (x * 6364136223846793005 + 1442695040888963407) % 2 ** 64
+            gaps.append(2500 + (x >> 33) % 11500)
     lab = [float(draw(st.integers(0, 20000)))]
     for g in gaps:
         lab.append(lab[-1] + g)
@@ -50,6 +59,75 @@ def many_queries_case(draw, two_part=False, counts=(257, 300, 385)):
     return {"refs": refs, "queries": queries, "mode": draw(st.sampled_from(["best", "all", "separate", "joined"])), "args": {},
             "select": sorted({queries[-1]["id"], queries[-2]["id"], queries[-3]["id"], queries[0]["id"], queries[n // 2]["id"],
                               queries[draw(st.integers(0, n - 1))]["id"], queries[256 if n > 256 else n - 1]["id"]})}
+
+
+@st.composite
+def huge_reference_case(draw, modes=("best", "separate"), straddle=None):
+    """one chromosome-sized reference of 33 000-36 000 labels (label numbers beyond 2^15 - 1, coordinates near 200 Mbp)
+    and 5 molecules cut from it: below, across and above label 32 767, one of them reversed"""
+    nref = draw(st.sampled_from([33000, 34000, 36000]))
+    ref = _reference(draw, draw(st.sampled_from([1, 1, 23])), nref, aperiodic=True)
+    lab = ref["labels"]
+    k = draw(st.integers(18, 30))
+    if straddle is None:
+        straddle = draw(st.booleans())
+    starts = [draw(st.integers(100, 30000)), 32767 - draw(st.integers(1, k - 2)) if straddle else 32767 + draw(st.integers(0, 3)), draw(st.integers(32768, nref - k - 1)),
+              nref - k - draw(st.integers(0, 40)), draw(st.integers(32768, nref - k - 1))]
+    queries = []
+    for i, a in enumerate(starts):
+        w = lab[a:a + k]
+        pos = [p - w[0] for p in w]
+        if i % 2 == 1:
+            pos = [pos[-1] - p for p in pos[::-1]]
+        queries.append({"id": i + 1, "length": r1(pos[-1] + 1), "labels": [r1(p) for p in pos], "truth": {"kind": "window", "i": a}})
+    return {"refs": [ref], "queries": queries, "mode": draw(st.sampled_from(list(modes))), "args": {}}
+
+
+@st.composite
+def many_references_case(draw):
+    """65-140 reference maps (a fragmented assembly: more maps than any batch of 32 / 64 holds): most are short contigs,
+    two to five of them, anywhere in the file, carry copies of the query's label pattern of different fidelity, so the
+    query's best seeds and best candidate come from maps far apart in the list"""
+    n = draw(st.sampled_from([70, 100, 129, 140, 200]))
+    lab = _reference(draw, 0, 60)["labels"]
+    k = draw(st.integers(14, 22))
+    a = draw(st.integers(0, 60 - k - 1))
+    qpos = [p - lab[a] for p in lab[a:a + k]]
+    # one carrier among the first 32 / 64 maps, one beyond them, and up to three more anywhere
+    carriers = [draw(st.integers(0, 31)), draw(st.integers(64, n - 1))] + draw(st.lists(st.integers(0, n - 1), max_size=3))
+    single = draw(st.booleans())       # the early carrier holds one copy only: fewer seeds than peaksCount from the first maps
+    # 'short-only': every other map is shorter than the query and yields no seed at all, so the first 32 / 64 maps may give
+    # the query fewer seeds than peaksCount
+    short_only = draw(st.booleans())
+    refs = []
+    for i in range(n):
+        if i in carriers:
+            labels, x = [], 5000.0 + 1000 * draw(st.integers(0, 20))
+            for c in range(1 if (single and i == carriers[0]) else draw(st.integers(1, 2))):
+                jit = draw(st.sampled_from([0, 40, 120, 300]))
+                drop = draw(st.integers(0, 2))
+                for j, p in enumerate(qpos):
+                    if drop and j % 7 == 2 + c + drop:
+                        continue
+                    labels.append(x + p + ((j * 37 + c * 11) % (2 * jit + 1)) - jit)
+                x = labels[-1] + 30000 + 1000 * draw(st.integers(0, 9))
+            for e in range(draw(st.integers(0, 6))):
+                labels.append(labels[-1] + 7000 + 900 * e)
+        elif i % 9 == 4 and not short_only:
+            labels = [4000.0 + j * (6100 + (i * 131) % 2900) + (j * j * 53) % 1700 for j in range(30)]
+        else:
+            labels = [3000.0 + j * (5200 + (i * 97) % 2100) for j in range(3 + i % 4)]
+        labels = sorted(set(r1(p) for p in labels))
+        refs.append({"id": i + 1, "length": r1(labels[-1] + 3000.0), "labels": labels})
+    queries = []
+    for qi in range(draw(st.integers(1, 3))):
+        pos = qpos if qi == 0 else qpos[qi:k - qi]
+        pos = [p - pos[0] for p in pos]
+        if draw(st.booleans()):
+            pos = [pos[-1] - p for p in pos[::-1]]
+        queries.append({"id": qi + 1, "length": r1(pos[-1] + 1), "labels": [r1(p) for p in pos], "truth": {"kind": "window", "i": a}})
+    return {"refs": refs, "queries": queries, "mode": draw(st.sampled_from(["best", "separate"])),
+            "args": draw(st.sampled_from([{}, {}, {"-p": 5}, {"-p": 8}]))}
 
 
 def short(case):
